@@ -58,3 +58,18 @@ Theorem C04_insertion_loop_on_isolated_double_bonds dbs L :
   fold_left (fun ch x => insert_at (fst x - 1) (snd x) ch) (sort_desc (mods_of dbs)) (cs L) = render (mods_of dbs) 0 L.
 Proof. exact (loop_on_isolated_double_bonds dbs L). Qed.
 Print Assumptions C04_insertion_loop_on_isolated_double_bonds.
+
+(* UNBOUNDED, for the assembly half of parse_poly_carbon (chain, range test, insertion loop, gluing, "//" replacement):
+   for every chain length and every non-empty list of isolated double bonds that the specification accepts it writes
+   the text of the designation; likewise for every saturated chain.  The parsing half (name -> count, list of
+   modifications) is covered by the bounded theorem above and the string correspondence of every run. *)
+Theorem C04_assemble_isolated n dbs :
+  dbs <> [] -> isolated_from 0 dbs -> acyl_ok (mkAcyl false false n dbs) = true ->
+  assemble n 0 [] true (Some (mods_of dbs)) = acyl_text (mkAcyl false false n dbs).
+Proof. exact (assemble_isolated n dbs). Qed.
+Print Assumptions C04_assemble_isolated.
+
+Theorem C04_assemble_saturated n :
+  2 <= n -> assemble n 0 [] false None = acyl_text (mkAcyl false false n []).
+Proof. exact (assemble_saturated n). Qed.
+Print Assumptions C04_assemble_saturated.
